@@ -238,7 +238,22 @@ Definition allow_list : list (site * reason) := [
   (("chython/reactor/reactor.py", "Reactor.__call__", "call permutations(s_nums, len_patterns) #2"), IntHistory "order in which reactant assignments are tried: order of the generated reactions");
   (("chython/reactor/reactor.py", "Reactor._single_stage", "call zip(collision, count(max(max_ignored_number, max(new)) + 1))"), IntHistory "which colliding atom gets which fresh number");
   (("chython/reactor/reactor.py", "fix_mapping_overlap", "call zip(intersection, count(max(max(checked_atoms), max(structure)) + 1))"), OrderFree "max_perm");
-  (("chython/reactor/reactor.py", "fix_mapping_overlap", "call max(checked_atoms)"), OrderFree "max_perm")
+  (("chython/reactor/reactor.py", "fix_mapping_overlap", "call max(checked_atoms)"), OrderFree "max_perm");
+  (* ==== second extension round: sites the static typing missed, found EXECUTED by the run-time cross-check (HINTS in
+          tools/gen_setaudit.py) ==== *)
+  (("chython/algorithms/aromatics/kekule.py", "_kekule_component", "call iter(double_bonded)"), IntHistory "start atom of the Kekule search of one component (unmodelled heuristic, C05)");
+  ((f_rings, "_bfs", "for for x in bonds[tail]"), IntHistory rings_note);
+  (("chython/algorithms/standardize/resonance.py", "Resonance.fix_resonance", "pop entries.pop()"), IntHistory "which charged atom is delocalised first: the paths compete for the same exits");
+  (("chython/algorithms/stereo.py", "MoleculeStereo.__differentiation", "for for n in atoms_stereo"),
+     OrderFreeUpTo "multi_table_perm" "groups of equal-weight stereo atoms: same members for every enumeration; the order inside a group and of the groups follows the int set (group[0] is read for the environment size, which is a function of the common weight)");
+  (("chython/algorithms/stereo.py", "MoleculeStereo.__differentiation", "for for nm in cis_trans_stereo"),
+     OrderFreeUpTo "multi_table_perm" "groups of equal-weight stereo bonds: same members; order inside a group follows the set of int pairs");
+  (("chython/algorithms/stereo.py", "MoleculeStereo.__differentiation", "for for c in allenes_stereo"),
+     OrderFreeUpTo "multi_table_perm" "groups of equal-weight allene centres: same members; order inside a group follows the int set");
+  (("chython/algorithms/tautomers/keto_enol.py", "KetoEnol.__enumerate_bonds", "for for n in dirs"), IntHistory "initial DFS stack: order of the enumerated keto-enol paths (order of the generated tautomers)");
+  (("chython/containers/molecule.py", "MoleculeContainer.fix_structure", "for for n in self._changed or self._atoms"), OrderFree "pointwise_update_perm");   (* calc_implicit(n) *)
+  (("chython/reactor/base.py", "BaseReactor._get_deleted", "for for x in self._to_delete"), OrderFree "set_of_map_perm");
+  (("chython/reactor/reactor.py", "Reactor._single_stage", "call max(ignored, default=0)"), OrderFree "max_perm")
 ].
 
 (* lemmas an OrderFree / KeyedTieBreak reason may name: each is a theorem of Props.C19 (C19_<name>) *)
@@ -246,7 +261,7 @@ Definition known_lemmas : list string :=
   ["group_sizes_perm"; "min_by_perm"; "bfs_level_perm"; "sort_by_perm"; "remove_vertices_perm"; "discard_all_perm"; "components_partition";
    "singleton_enum"; "filter_set_perm"; "lookup_table_perm"; "index_set_perm"; "set_of_map_perm";
    "chains_insertion_order_free"; "ring_mask_perm"; "sorted_str_perm"; "fragments_of_perm";
-   "pointwise_update_perm"; "existsb_perm"; "forallb_perm"; "sorted_ints_perm"; "max_perm"; "merged_ring_sym"].
+   "pointwise_update_perm"; "existsb_perm"; "forallb_perm"; "sorted_ints_perm"; "max_perm"; "merged_ring_sym"; "multi_table_perm"].
 
 Close Scope string_scope.
 
